@@ -252,7 +252,7 @@ func divAlphaScenario(ch chain, o divOp) engine.Scenario {
 							if CI && o.name == "DivFloorByLastModulusNTT" && ref.AddMod(out.Coeffs[i][j], 1, q) == w {
 								// known class (FINDINGS.md): conjugate-invariant ring, this operation, result exactly one too
 								// small; keep judging the other coefficients
-								fail(c, sigCIFloorNTT, "%s Q=%v level=%d %s: x=%s lane %d: result mod %d is %d, exact floored quotient ≡ %d (one too small)", ch.name, mod[:level+1], level, aliasNames[alias], xs[j], j, q, out.Coeffs[i][j]%q, w)
+								c.Fail(sigCIFloorNTT, "%s Q=%v level=%d %s: x=%s lane %d: result mod %d is %d, exact floored quotient ≡ %d (one too small)", ch.name, mod[:level+1], level, aliasNames[alias], xs[j], j, q, out.Coeffs[i][j]%q, w)
 								continue
 							}
 							fail(c, "C02/div/"+o.name+"/quotient", "%s Q=%v level=%d nb=%d %s: x=%s lane %d: result mod q_%d=%d is %d, exact quotient %s ≡ %d",
